@@ -129,10 +129,15 @@ def extra_cases():
     return out
 
 
+def focus(chk):
+    from .. import focusgen as F
+    return F.cases(chk.seed + 1007, 1800 if chk.tier == "quick" else 60000)
+
+
 def run(chk):
     pf_ok, pf = C.proof_obligations("C06")
     binp = C.build_harness("verif")
-    cases = R.corpus_cases("C06") + R.corpus_cases("C01") + extra_cases() + R.suite_cases() + \
+    cases = R.corpus_cases("C06") + R.corpus_cases("C01") + extra_cases() + R.suite_cases() + focus(chk) + \
         R.generate(binp, chk.seed + 1000, N[chk.tier], chk.tier)
     run_cases(chk, binp, cases, pf_ok, pf)
 
